@@ -412,6 +412,75 @@ func runC03(c *core.Ctx) {
 		c.Check("count-only-successes", f.Name+"/wrote++", f.PosStr(), badInc == "", badInc)
 		c.Check("partial-vs-failed", f.Name+"/ErrPartialWrite", f.PosStr(), badPartial == "", badPartial)
 		c.Check("partial-vs-failed", f.Name+"/ErrWriteFailed", f.PosStr(), badFail == "", badFail)
+		// the collector hears every owner: the loop around the select is left only by a return (classified above)
+		// or by running out of owners; a break/goto out of it makes the partial/failed verdict depend on the
+		// order in which the owners answered
+		{
+			var loop ast.Stmt
+			var loopBody *ast.BlockStmt
+			ast.Inspect(f.Body, func(nd ast.Node) bool {
+				if _, ok := nd.(*ast.FuncLit); ok {
+					return false
+				}
+				var body *ast.BlockStmt
+				switch l := nd.(type) {
+				case *ast.RangeStmt:
+					body = l.Body
+				case *ast.ForStmt:
+					body = l.Body
+				}
+				if body == nil || loop != nil {
+					return true
+				}
+				for _, st := range body.List {
+					if _, ok := st.(*ast.SelectStmt); ok {
+						loop, loopBody = nd.(ast.Stmt), body
+					}
+				}
+				return true
+			})
+			c.Need(loop != nil, "collector loop (loop whose body is the select over results, timeout and closing)")
+			var exits []string
+			var walk func(n ast.Node, breakable bool)
+			walk = func(n ast.Node, breakable bool) {
+				ast.Inspect(n, func(nd ast.Node) bool {
+					switch x := nd.(type) {
+					case *ast.FuncLit:
+						return false
+					case *ast.ForStmt, *ast.RangeStmt, *ast.SelectStmt, *ast.SwitchStmt, *ast.TypeSwitchStmt:
+						if nd == n {
+							return true
+						}
+						// an unlabeled break inside belongs to that statement
+						walk(nd, false)
+						return false
+					case *ast.BranchStmt:
+						switch {
+						case x.Tok == token.GOTO:
+							exits = append(exits, "goto @"+c.P.Pos(x.Pos()))
+						case x.Tok == token.BREAK && x.Label != nil:
+							// a labeled break leaves the collector loop unless the label names a statement inside it
+							inside := false
+							ast.Inspect(loopBody, func(m ast.Node) bool {
+								if ls, ok := m.(*ast.LabeledStmt); ok && ls.Label.Name == x.Label.Name {
+									inside = true
+								}
+								return true
+							})
+							if !inside {
+								exits = append(exits, "break "+x.Label.Name+" @"+c.P.Pos(x.Pos()))
+							}
+						case x.Tok == token.BREAK && breakable:
+							exits = append(exits, "break @"+c.P.Pos(x.Pos()))
+						}
+					}
+					return true
+				})
+			}
+			walk(loopBody, true)
+			c.Check("collector-hears-every-owner", f.Name+"/collector-loop-exits", c.P.Pos(loop.Pos()), len(exits) == 0,
+				"the collector loop is left early ("+strings.Join(exits, ", ")+") without a classified return: owners that answer later are not counted, so too few successes can be reported as a failure (or the reverse) depending on arrival order")
+		}
 		// ErrTimeout only inside the timer case of the select
 		nT := 0
 		ast.Inspect(f.Body, func(nd ast.Node) bool {
@@ -575,6 +644,23 @@ func runC03(c *core.Ctx) {
 	c.Clause("D5", func() {
 		n := connPoisonRule(c, "failed-exchange-poisons-connection")
 		c.Floor("exchange sites on pooled connections", n, 28)
+	})
+
+	c.Clause("D7", func() {
+		// The handoff path is keyed by two ids of one type (owner/node id, shard id) that travel through WriteShard,
+		// Empty, processor, setProcessor and the processors' constructors. A transposed pair addresses the queue of
+		// another (node, shard): Empty then answers "empty" for a non-empty queue and new points overtake queued ones,
+		// or a write lands in the wrong queue. Every call into services/hh from the coordinator and from hh itself
+		// is compared with the callee's parameter names.
+		sites, bad := swappedArgSites(c.P, []string{coord, hhp}, []string{hhp, coord})
+		k := map[string]int{}
+		for _, st := range sites {
+			key := st.Fn.Root().Name + "/" + short(st.Callee)
+			k[key]++
+			d, isBad := bad[st.Ev]
+			c.Check("id-pair-not-transposed", fmt.Sprintf("%s#%d", key, k[key]), c.P.Pos(st.Ev.Pos()), !isBad, d)
+		}
+		c.Floor("call sites with two same-typed id parameters", len(sites), 8)
 	})
 
 	c.Clause("D6", func() {
